@@ -9,6 +9,7 @@ PROPS = {
     "C01": dict(VS),
     "C02": dict(VS),
     "C04": dict(VS),
+    "C07": dict(VS),
     "C15": {"engine": "small", "needs": ["hz", "small"], "level": "exploration"},
     "C17": {"engine": "small", "needs": ["hz", "small"], "level": "exploration"},
 }
